@@ -232,7 +232,7 @@ def run(ctx):
     outcome_classes = set()
 
     def judge_grid(a, label):
-        probs = validate_file(a.nc, label, tokamak=a.config.get("family", "G") != "cli-circular")
+        probs = validate_file(a.nc, label, tokamak=a.config.get("family", "G") not in ("cli-circular", "X"))
         stats["validated_grids"] += 1
         stats["cells_fold_tested"] += int(a.nc["Rxy"].size) if "Rxy" in a.nc else 0
         for sig, d in probs[:6]:
